@@ -259,7 +259,9 @@ fn move_to_end(top: &mut Vec<BoxT>, path: &str) {
 /// Every single transformation applicable to this tree (complete per kind/position).
 pub fn enumerate(top: &[BoxT], rng: &mut Rng) -> Vec<Xf> {
     let mut v = Vec::new();
-    let unk = |rng: &mut Rng| -> [u8; 4] { *rng.pick(&[*b"free", *b"skip", *b"zzzz", *b"uuid", *b"wide"]) };
+    // unknown / ignorable types: the two the specification names (free, skip), QuickTime's wide,
+    // uuid, a made-up code, and the all-zero code (QuickTime's "terminator atom" has type 0)
+    let unk = |rng: &mut Rng| -> [u8; 4] { *rng.pick(&[*b"free", *b"skip", *b"zzzz", *b"uuid", *b"wide", [0u8; 4]]) };
     for pos in 0..=top.len() {
         v.push(Xf::InsertTop { pos, typ: unk(rng), len: rng.usize_below(24), large: rng.chance(1, 4) });
     }
